@@ -691,7 +691,7 @@ std::vector<std::string> Sandbox::base_args(const CmdSpec& spec, const std::stri
 	if (cfg.parity_limit > 0) { a.push_back("--test-parity-limit"); a.push_back(strf("%lld", (long long)cfg.parity_limit)); }
 	if (cfg.skip_fallocate) a.push_back("--test-skip-fallocate");
 	if (cfg.autosave_at > 0 && spec.cmd == "sync") { a.push_back("--test-force-autosave-at"); a.push_back(strf("%d", cfg.autosave_at)); }
-	for (auto& o : spec.opts) a.push_back(o);
+	for (auto& o : spec.opts) a.push_back(o == "@IMP@" ? abs("imp") : o);
 	a.push_back(spec.cmd);
 	return a;
 }
